@@ -45,6 +45,23 @@ def alias_ops():
     return ops
 
 
+def grow_after_reload(open_line):
+    """values that are rewritten with LONGER content after the collection has been decoded from the storage backend
+    (eviction and reload, Close + Open): decoded elements are sub-slices of one buffer, so an update that reuses an
+    element's storage would run into its neighbours - every field / member must keep its own bytes"""
+    from gen_api import fbits
+    ops = [open_line, "api HSet 6830 61 31", "api HSet 6830 62 68656c6c6f", "api HSet 6830 63 7a7a", "api HSet 6830 64 39", "api HSet 6830 65 -",
+           "api SAdd 7330 61 62 63", "flush"]
+    probe = ["api HGetAll 6830", "api HGet 6830 62", "api HStrLen 6830 63", "api SMembers 7330"]
+    for reload in (["gc", "gc", "gc"], ["ldump", "close", "reopen", "ldump"], ["gc", "gc", "gc"]):
+        ops += reload
+        ops += ["api HIncrBy 6830 61 123456789012"] + probe + ["api HIncrBy 6830 64 9000000000000"] + probe
+        ops += [f"api HIncrByFloat 6830 65 {fbits(1000000.0)}"] + probe + ["api HSet 6830 61 r40x78"] + probe + ["api HSetNX 6830 66 r30x79", "api HDel 6830 62"] + probe
+        ops += ["api HSet 6830 62 68656c6c6f", "api HSet 6830 61 31", "api HSet 6830 64 39", "api HSet 6830 65 -", "flush"]
+    ops.append("dump")
+    return ops
+
+
 def run(ctx, proofs_ok):
     apicheck.run_streams(ctx, [
         {"label": "random hash/set command streams (embedded API, memory backend)", "fams": ["hash", "set", "hash", "set", "key"],
@@ -55,7 +72,9 @@ def run(ctx, proofs_ok):
         {"label": "hash/set streams on Pebble with eviction and reopen", "fams": ["hash", "set", "key"],
          "n": (600, 3000), "count": (1, 6), "backend": "pebble", "events": {"gc": 0.08, "flush": 0.03, "reopen": 0.02}},
     ], extra=[("exhaustive set algebra over missing / emptied / repeated / wrong-typed operands", algebra_ops(), False),
-              ("source = destination: SMOVE k k m and *STORE onto an operand, on sets of 0, 1, 2 members", alias_ops(), False)])
+              ("source = destination: SMOVE k k m and *STORE onto an operand, on sets of 0, 1, 2 members", alias_ops(), False),
+              ("fields rewritten with longer values after the hash was reloaded from storage (memory)", grow_after_reload("open a mem"), False),
+              ("fields rewritten with longer values after the hash was reloaded from storage (Pebble)", grow_after_reload(f"open a pebble {ctx.work}/pebble-grow"), False)])
     if ctx.violations:
         return
     # the command layer (argument text, option words, replies) of the same families over the network protocol
